@@ -10,7 +10,8 @@ package bookkeeping
 //     with RewardsCalculationFix x PendingResidueRewards in all four combinations,
 //     RewardsRateRefreshInterval in {1, 2, 500000} and MinBalance in {0, 100000}
 //     (NextRewardsState takes the parameters by value, nothing is registered);
-//   * RewardsLevel, RewardsResidue, RewardsRate in B = {0,1,2, 2^32-1, 2^32+1, 10^16, 2^63-1, 2^63+1, 2^64-1};
+//   * RewardsLevel, RewardsResidue, RewardsRate in B = {0,1,2, 2^32-1, 2^32+1, 10^16, 2^63-1, 2^63+1, 2^64-1}
+//     (quick tier: level in {0,1,10^16,2^63+1,2^64-1} only; thorough: all of B);
 //   * totalRewardUnits in B (0 included, see below);
 //   * incentive-pool balance in {0, min-1, min, min+1, min+residue-1, min+residue, min+residue+1,
 //     min+interval*k-1|+0|+1 and min+residue+interval*k-1|+0|+1 for k in {1,2,3,10^6}, 10^16, 2^64-1}
@@ -269,19 +270,22 @@ func TestVerif_C25(t *testing.T) {
 	r.Set("registered_flag_combinations", flagCombos)
 
 	B := c25B()
+	// quick tier: the level only matters through the overflow of level + quotient, so 5 of the 9
+	// boundary values are used for it (thorough: all 9)
+	levels := ve.Pick([]uint64{0, 1, 10_000_000_000_000_000, 1<<63 + 1, math.MaxUint64}, B)
 	recalcs := ve.Pick([]uint64{500000}, []uint64{1, 500000, 1 << 40})
 	var errlogs atomic.Int64
 	base := logging.NewLogger()
 	log := c25log{Logger: base, n: &errlogs}
 	var fails atomic.Int64
 	nb := len(B)
-	dims := []int{len(protos), nb, nb, nb}
+	dims := []int{len(protos), len(levels), nb, nb}
 	total := ve.ProductSize(dims)
 	visited := r.ParallelFor(total, func(i int) {
 		idx := make([]int, 4)
 		ve.Unrank(i, dims, idx)
 		pr := protos[idx[0]]
-		level, residue, rate := B[idx[1]], B[idx[2]], B[idx[3]]
+		level, residue, rate := levels[idx[1]], B[idx[2]], B[idx[3]]
 		pools := c25pools(pr.p.MinBalance, residue, pr.p.RewardsRateRefreshInterval)
 		classes := map[string]struct{}{}
 		n := 0
@@ -316,8 +320,8 @@ func TestVerif_C25(t *testing.T) {
 	})
 	r.Set("overflow_error_logs_swallowed", errlogs.Load())
 	cov := ve.Coverage{
-		Rule: fmt.Sprintf("full product: %d protocols (%d registered + %d synthetic incl. all 4 RewardsCalculationFix x PendingResidueRewards combinations) x level,residue,rate in B (9 boundary values each) x units in B x pool grid (<= 33 boundary values around MinBalance, MinBalance+residue and interval multiples) x round in {recalc-1,recalc,recalc+1} x recalc in %v; each point through the real NextRewardsState and a big.Int oracle",
-			len(protos), nReal, len(protos)-nReal, recalcs),
+		Rule: fmt.Sprintf("full product: %d protocols (%d registered + %d synthetic incl. all 4 RewardsCalculationFix x PendingResidueRewards combinations) x level in %v x residue,rate in B (9 boundary values each) x units in B x pool grid (<= 33 boundary values around MinBalance, MinBalance+residue and interval multiples) x round in {recalc-1,recalc,recalc+1} x recalc in %v; each point through the real NextRewardsState and a big.Int oracle",
+			len(protos), nReal, len(protos)-nReal, levels, recalcs),
 		Exhaustive: visited == int64(total),
 	}
 	if n := r.Finish(cov); n > 0 {
